@@ -54,6 +54,8 @@ def d7_sleepers(facts, rep):
     notified address."""
     from rules.C02 import d1_scan_direction
     d1_scan_direction(facts, rep, clause='D7')
+    from rules.C02 import rw_downgrade_wakes_all
+    rw_downgrade_wakes_all(facts, rep, 'D7')
     pick = {}
     for name in ('wait_on_address', 'notify_by_address', 'notify_by_address_one', 'notify_by_address_all'):
         for fn in facts.get(R1 + name):
